@@ -9,6 +9,7 @@ import Hw.Bitmap.ScanLemmas
 import Hw.Bitmap.RoundTripList
 import Hw.Bitmap.RoundTripTaskset
 import Hw.Bitmap.RoundTripHwloc
+import Hw.Bitmap.ScanCursorSafe
 namespace Hw.Props.C04
 open Hw Hw.Bitmap
 
@@ -131,5 +132,49 @@ example : tasksetScan (text (Bitmap.chunksTaskset ⟨[0xf0#64, 0xffffffff0000000
     = .ok [some 0xf0#64, some 0xffffffff00000001#64] true := by decide
 example : (⟨[0xf0f#64, 0x1#64], true⟩ : Bitmap).count * 64 + 64 ≤ listMaxIndex ∧
     text (Bitmap.chunksList ⟨[0xf0f#64, 0x1#64], true⟩) = str "0-3,8-11,64,128-" := by decide
+
+/-! ## 4. memory safety of the parsers as the C walks the string (cursor-level models `Hw.Bitmap.Cursor`):
+for EVERY byte string `s` (stored as `s ++ [NUL]`, sign characters, huge numbers and embedded NULs included)
+every byte the parser or libc reads has index ≤ `s.length`, i.e. never past the terminating NUL -/
+
+open Hw.Bitmap.Cursor in
+theorem C04_sscanf_reads_in_bounds (s : List Byte) :
+    ∀ r, r ∈ (hwlocSscanfC s).log.reads → r ≤ s.length := (hwlocSscanfC_safe s).1
+
+open Hw.Bitmap.Cursor in
+theorem C04_list_sscanf_reads_in_bounds (s : List Byte) :
+    ∀ r, r ∈ (listSscanfC s).log.reads → r ≤ s.length := (listSscanfC_safe s).1
+
+open Hw.Bitmap.Cursor in
+theorem C04_taskset_sscanf_reads_in_bounds (s : List Byte) :
+    ∀ r, r ∈ (tasksetSscanfC s).log.reads → r ≤ s.length := (tasksetSscanfC_safe s).1
+
+/-- every store into `set->ulongs[]` made by the parsers themselves has `0 ≤ index < ulongs_count`, and
+`ulongs_count ≤ ulongs_allocated` whatever was allocated before (`prev`); every store into the taskset
+parser's `char ustr[17]` has index < 17.  (The list parser stores only through `hwloc_bitmap_zero/set/set_range`.) -/
+theorem C04_sscanf_writes_in_bounds (s : List Byte) (prev : Nat) :
+    ∀ w, w ∈ (Cursor.hwlocSscanfC s).log.writes →
+      0 ≤ w.1 ∧ w.1 < (w.2 : Int) ∧ w.2 ≤ Cursor.allocFor prev w.2 :=
+  fun w hw => ⟨((Cursor.hwlocSscanfC_safe s).2.1 w hw).1, ((Cursor.hwlocSscanfC_safe s).2.1 w hw).2, (Cursor.le_allocFor prev w.2).1⟩
+
+theorem C04_list_sscanf_writes_in_bounds (s : List Byte) (prev : Nat) :
+    ∀ w, w ∈ (Cursor.listSscanfC s).log.writes →
+      0 ≤ w.1 ∧ w.1 < (w.2 : Int) ∧ w.2 ≤ Cursor.allocFor prev w.2 :=
+  fun w hw => ⟨((Cursor.listSscanfC_safe s).2.1 w hw).1, ((Cursor.listSscanfC_safe s).2.1 w hw).2, (Cursor.le_allocFor prev w.2).1⟩
+
+theorem C04_taskset_sscanf_writes_in_bounds (s : List Byte) (prev : Nat) :
+    (∀ w, w ∈ (Cursor.tasksetSscanfC s).log.writes →
+      0 ≤ w.1 ∧ w.1 < (w.2 : Int) ∧ w.2 ≤ Cursor.allocFor prev w.2) ∧
+    (∀ u, u ∈ (Cursor.tasksetSscanfC s).log.ustr → u < 17) :=
+  ⟨fun w hw => ⟨((Cursor.tasksetSscanfC_safe s).2.1 w hw).1, ((Cursor.tasksetSscanfC_safe s).2.1 w hw).2, (Cursor.le_allocFor prev w.2).1⟩,
+   (Cursor.tasksetSscanfC_safe s).2.2⟩
+
+/-! non-vacuity: the logs are not empty — the strings of finding F02 and a signed number -/
+example : (Cursor.hwlocSscanfC (str "")).log.reads.contains 0 = true ∧ (Cursor.hwlocSscanfC (str "")).log.maxRead = 0 := by decide
+example : (Cursor.hwlocSscanfC (str "0x1,")).log.maxRead = 4 ∧ (Cursor.hwlocSscanfC (str "0x1,")).log.writes = [((0 : Int), 1)] := by decide
+example : (Cursor.listSscanfC (str "1,x,2")).res = .fail ∧ (Cursor.listSscanfC (str "1,x,2")).log.maxRead = 2 := by decide
+example : (Cursor.tasksetSscanfC (str "0xf...f12")).log.writes = [((0 : Int), 1)] ∧
+    (Cursor.tasksetSscanfC (str "0xf...f12")).log.ustr.length = 3 ∧ (Cursor.tasksetSscanfC (str "0xf...f12")).log.maxRead = 9 := by decide
+example : (Cursor.hwlocSscanfC (str "-1")).res = .ok [some 0xffffffffffffffff#64] false := by decide
 
 end Hw.Props.C04
